@@ -112,14 +112,21 @@ Section Capture.
   Definition stack_from (s : option (list A)) : option (list A) :=
     if Z.eqb (len s) 0 then None else Some (pcs_of s).
 
-  (* DebugStack (error.go): for every pc of StackTrace(), runtime.FuncForPC(pc);
-     nil results are dropped; name and FileLine(pc) of the raw pc. *)
+  (* DebugStack (error.go) BEFORE F8's fix: for every pc of StackTrace(),
+     runtime.FuncForPC(pc); nil results are dropped; name and FileLine(pc) of the
+     raw pc.  Kept so that the model follows the source if it goes back. *)
   Variable sym2 : A -> option frame.  (* FuncForPC(pc) + Func.FileLine(pc) *)
   Definition debug_stack_funcforpc (s : option (list A)) : list frame :=
     flat_map (fun pc => match sym2 pc with Some f => [f] | None => [] end) (stack_trace s).
+  (* DebugStack after F8's fix: runtime.CallersFrames over StackTrace(); a frame is
+     printed only `if frame.Function != ""` *)
+  Definition named (f : frame) : bool := negb (str_eqb (fr_func f) "").
+  Definition debug_stack_callersframes (s : option (list A)) : list frame :=
+    if Gen.Chain.debugstack_skips_unnamed then filter named (map sym (stack_trace s))
+    else map sym (stack_trace s).
   (* the symboliser DebugStack uses NOW, as read from the source by srcgen *)
   Definition debug_stack (s : option (list A)) : list frame :=
-    if str_eqb Gen.Chain.debugstack_symboliser "runtime.CallersFrames" then frames s
+    if str_eqb Gen.Chain.debugstack_symboliser "runtime.CallersFrames" then debug_stack_callersframes s
     else debug_stack_funcforpc s.
 End Capture.
 
